@@ -159,7 +159,7 @@ MUTANTS = {
  'C13-wrap-99999': ('C13', PAR, 'atominfo[3] = atomlist[3] % 100000', 'atominfo[3] = atomlist[3] % 99999'),
  'C13-velocity-width': ('C13', PAR, 'float_format_dict["velocities"] = float_format_dict["decimals"]+1', 'float_format_dict["velocities"] = float_format_dict["decimals"]'),
  'C14-count-check-dropped': ('C14', PAR, '            if self._natoms != self._current_atom:', '            if False:'),
- 'C14-bad-box-line-accepted': ('C14', PAR, '            self._box_matrix = extract_lattice_gro(line)\n        except ValueError:', '            self._box_matrix = extract_lattice_gro(line)\n        except ValueError:\n            self._box_matrix = np.zeros((3, 3))\n            return\n        except KeyError:'),
+ 'C14-bad-box-line-accepted': ('C14', PAR, '            self._box_matrix = extract_lattice_gro(line)\n        except ValueError:', '            self._box_matrix = extract_lattice_gro(line)\n        except ValueError:\n            self._box_matrix = __import__("numpy").zeros((3, 3))\n            return\n        except KeyError:'),
  'C15-pairs-ignored': ('C15', TOP, "for key in ('constraints', 'bonds', 'pairs'):", "for key in ('constraints', 'bonds'):"),
  'C15-numbers-as-positions': ('C15', TOP, 'bonds.append((atoms_number[bond[0]], atoms_number[bond[1]]))', 'bonds.append((bond[0] - 1, bond[1] - 1))'),
  'C16-repeated-section-overwritten': ('C16', ITP, '                if sec not in self:\n                    self[sec] = ItpSection(sec, [])', '                self[sec] = ItpSection(sec, [])'),
